@@ -138,6 +138,13 @@ def _relabelled_fits(ctx, case, kind, m0, perms):
         atol = 1e-7 * max(1.0, case.iterations / 5.0) * max(
             1.0, float(case.opts.get('spatial_weight', 1.0) or 1.0),
             float(case.opts.get('spectral_weight', 1.0) or 1.0))
+        if kind in ('cacgmm', 'gcacgmm', 'vmfcacgmm'):
+            # covariances that agree to 1e-7 of their largest eigenvalue give
+            # quadratic forms z^H B^-1 z that agree to 1e-7 times the condition
+            # number (the conditioning guard above admits up to 1e7)
+            lam = np.asarray(m0.cacg.covariance_eigenvalues, dtype=float)
+            cond = float(np.max(lam.max(axis=-1) / np.maximum(lam.min(axis=-1), 1e-300)))
+            atol *= max(1.0, cond / 100.0)
         if kind == 'cbmm':
             # the Bingham eigenvalues come from an iterative solver whose two
             # runs (classes summed in a different order) stop up to its
